@@ -45,6 +45,7 @@ class Family:
         self.setup = setup          # optional callable(eng) run before exploring (engine mode switches)
 
 _G = {}
+DEFAULT_PATH_CAP = int(os.environ.get("VERIF_PATH_CAP", "30000"))     # per work item; hitting it marks the family as truncated (evidence: exhaustive=false)
 def _worker(job):
     fi, prefix = job
     eng = _G["eng"]; fam = _G["fams"][fi]
@@ -54,17 +55,18 @@ def _worker(job):
     eng.capture_pc = bool(fam.partition); eng.captured = []
     q0, d0, s0, st0 = eng.nqueries, eng.ndecisions, eng.solver_s, eng.nsteps
     try:
-        res, dt = eng.explore(fam.mk, fam.run, prefix=prefix, limit=fam.limit)
+        res, dt = eng.explore(fam.mk, fam.run, prefix=prefix, limit=fam.limit or DEFAULT_PATH_CAP)
     except Unmodelled as e:
         return {"fi": fi, "error": "unmodelled callee: %s @ %s" % (e, " > ".join("%s:%s" % x for x in getattr(e, "mir_stack", [])[-4:]))}
     except Inconclusive as e:
         return {"fi": fi, "error": "inconclusive: %s" % e}
     except Exception as e:
         return {"fi": fi, "error": "engine error: %s\n%s\nMIR stack: %s" % (e, traceback.format_exc()[-1500:], getattr(e, "mir_stack", [])[-5:])}
-    out = {"fi": fi, "paths": [], "pcs": list(eng.captured), "truncated": bool(fam.limit and len(res) >= fam.limit), "queries": eng.nqueries - q0, "decisions": eng.ndecisions - d0, "solver_s": eng.solver_s - s0, "steps": eng.nsteps - st0}
+    out = {"fi": fi, "paths": [], "pcs": list(eng.captured), "truncated": bool(len(res) >= (fam.limit or DEFAULT_PATH_CAP)), "queries": eng.nqueries - q0, "decisions": eng.ndecisions - d0, "solver_s": eng.solver_s - s0, "steps": eng.nsteps - st0}
+    eng.reset_path(); out["max_path_steps"] = eng.max_path_steps_seen; eng.max_path_steps_seen = 0
     for kind, dec, r in res:
         if kind == "panic" and not isinstance(r, dict):
-            r = {"outcome": "panic", "violations": [{"what": "panic: " + r, "case": None}]}
+            r = {"outcome": "panic", "violations": [{"what": "panic: " + r, "case": None, "kind": "panic"}]}
         out["paths"].append((len(dec), r))
     return out
 
@@ -95,7 +97,7 @@ def explore_families(eng, fams, log=print, deadline=None):
             s = summ[r["fi"]]
             if r.get("pcs"): s.setdefault("pcs", []).extend(r["pcs"])
             if r.get("truncated"): s["truncated"] = True
-            s["queries"] += r["queries"]; s["decisions"] += r["decisions"]; s["solver_s"] += r["solver_s"]; s["steps"] += r["steps"]
+            s["queries"] += r["queries"]; s["decisions"] += r["decisions"]; s["solver_s"] += r["solver_s"]; s["steps"] += r["steps"]; s["max_path_steps"] = max(s.get("max_path_steps", 0), r.get("max_path_steps", 0))
             for nd, pr in r["paths"]:
                 s["paths"] += 1
                 oc = pr.get("outcome", "ok")
@@ -358,6 +360,7 @@ def _main(check):
         "n_families": len(fams),
         "queries": sum(s["queries"] for s in summ), "solver_s": round(sum(s["solver_s"] for s in summ), 2),
         "mir_steps": sum(s["steps"] for s in summ),
+        "max_mir_steps_on_one_path": max([s.get("max_path_steps", 0) for s in summ] + [0]),
         "functions_encoded": getattr(check, "FUNCTIONS", []), "models_used": getattr(check, "MODELS", []),
         "bounds": getattr(check, "BOUNDS", {}).get(tier, getattr(check, "BOUNDS", {})), "outside_bounds": getattr(check, "OUTSIDE", []),
         "witnesses": {k: allout[k] for k in sorted(allout)}, "partition_check": partitions,
